@@ -154,9 +154,10 @@ class CorrelationFunction(DFunction, UnitsManaged):
     
             if values is None:
                 #
-                # loop over parameter sets
+                # loop over parameter sets (each component as it was
+                # submitted, and its parameters in internal units)
                 #
-                for prms in self.params:
+                for params, prms in zip(p2calc, self.params):
                     
 #                    try:
 #                        ftype = params["ftype"]
